@@ -33,8 +33,9 @@ pub fn build_pass_2(
     let eeprom_start_address = 0x0;
 
     for segment in pass1.segments {
-        // the gap in front of a segment is filled when something follows it
-        if segment.items.is_empty() {
+        let fragment = pass_2_internal(&segment, common_context)?;
+        // the gap in front of a segment is filled when the segment places something
+        if fragment.is_empty() {
             continue;
         }
         // TODO: Rewrite to correct ordering of segment offsets and sizes
@@ -56,8 +57,6 @@ pub fn build_pass_2(
             // Data not writed anywhere
             SegmentType::Data => {}
         }
-
-        let fragment = pass_2_internal(&segment, common_context)?;
 
         match segment.t {
             SegmentType::Code => {
